@@ -168,7 +168,7 @@ PROPS['C01'] = {
         thm('EmmetProps.C01_unroll', 'for EVERY skeleton forest: the converter model yields every written element exactly once per repetition, in document order, groups spliced'),
     ],
     'domains': ['dom_markup'],
-    'rule': 'EVERY operator skeleton with up to 3 (quick) / 4 (thorough) items over > + ^ ^^ ( ) *2 (exhaustive) x 2-4 configurations, plus random abbreviations from the typed AST generator (elements with implicit names, classes, ids, attributes, text, *N, groups to depth 3, climbs up to ^^^) under html/xml/xhtml self-closing styles, format on/off and parent contexts; expected tag sequence computed from the statement (levels semantics + unrolling + implicit-name table) and compared with the tags read from the output; non-trivial = at least two operators; distinct = distinct (abbreviation, config)',
+    'rule': 'EVERY operator skeleton with up to 4 items over > + ^ ^^ ( ) *2 (exhaustive; 15 822 skeletons) x 1 (quick) / 4 (thorough) configurations, plus random abbreviations from the typed AST generator (elements with implicit names, classes, ids, attributes, text, *N, groups to depth 3, climbs up to ^^^) under html/xml/xhtml self-closing styles, format on/off and parent contexts; expected tag sequence computed from the statement (levels semantics + unrolling + implicit-name table) and compared with the tags read from the output; non-trivial = at least two operators; distinct = distinct (abbreviation, config)',
     'explanation': 'Parser and converter stages are theorems over all skeletons; the implicit-name table, snippet resolution and the formatter stage that prints the tree are decided by correspondence (full pipeline model = expand() on every generated input) and by the statement-derived oracle.',
     'level_text': 'Lean 4 theorems over ALL operator skeletons: parser = denotation, converter = unrolling. The printed output carrying that tree (implicit names, formatter) is at correspondence + oracle level, exhaustive for small skeletons.',
     'level_note': 'Trusted: Lean kernel + standard axioms; hand-written models of tokenizer, parser, convert, snippets, implicit_tag, html formatter (0 differences with expand() on all explored inputs). The lexical step print(skeleton) -> tokens is covered by correspondence, not proved.',
